@@ -18,7 +18,9 @@ pub fn prop() -> Prop {
                grammar shape incl. u64/i64 edges, halfway and overflow cases) rendered to bytes; the parsed \
                value must equal the value known by construction and the reference parser's. corrupt: one \
                byte/token of such a text deleted, duplicated, replaced, or the text truncated. soup: sequences \
-               over a JSON token alphabet and raw bytes. For corrupt and soup the oracle is differential: \
+               over a JSON token alphabet and raw bytes. codepoints (enumerated): every BMP code unit as a raw \
+               character and as \\uXXXX / \\u{XXXX} escape in a value and in a key, every surrogate code unit \
+               alone, and surrogate pairs over the ends and a stride of both halves. For corrupt and soup the oracle is differential: \
                parse_value is Ok iff the relaxed reference parser accepts, values equal, never a panic. \
                Non-trivial = accepted document containing an escape, a non-trivial number or a relaxation, or a \
                rejected input within one token of a well-formed one. Distinct = distinct input bytes.",
@@ -30,6 +32,7 @@ pub fn prop() -> Prop {
             Sub { name: "wellformed", run: run_wellformed, replay: |j| replay_with::<WfCase>(j, check_wellformed) },
             Sub { name: "corrupt", run: run_corrupt, replay: |j| replay_with::<Bytes>(j, check_bytes_near) },
             Sub { name: "soup", run: run_soup, replay: |j| replay_with::<Bytes>(j, check_bytes) },
+            Sub { name: "codepoints", run: run_codepoints, replay: |j| replay_with::<Bytes>(j, check_bytes) },
         ],
     }
 }
@@ -212,4 +215,61 @@ fn run_soup(ctx: &mut Ctx) {
         Bytes(v)
     });
     run_strategy(ctx, "C02", "soup", cases, prop_oneof![5 => soup, 3 => strsoup, 2 => raw], check_bytes);
+}
+
+
+/// enumerated: every 16-bit code unit raw and escaped, lone surrogates, pairs at the range ends
+fn run_codepoints(ctx: &mut Ctx) {
+    let stride = ctx.tier.pick(37u32, 5u32);
+    let mut texts: Vec<Vec<u8>> = vec![];
+    let mut k = 0u32;
+    let mine = |k: &mut u32| {
+        *k += 1;
+        (*k as usize) % ctx.nworkers == ctx.worker
+    };
+    for u in 0u32..=0xFFFF {
+        if !mine(&mut k) {
+            continue;
+        }
+        let (lx, ux) = (format!("{u:04x}"), format!("{u:04X}"));
+        texts.push(format!("\"a\\u{lx}b\"").into_bytes());
+        texts.push(format!("[\"\\u{ux}\",1]").into_bytes());
+        texts.push(format!("{{\"\\u{{{ux}}}\":\"\\u{lx}\\u{lx}\"}}").into_bytes());
+        if let Some(c) = char::from_u32(u) {
+            if c != '"' && c != '\\' {
+                texts.push(format!("\"x{c}y\"").into_bytes());
+                texts.push(format!("{{\"{c}\":[\"{c}{c}\"]}}").into_bytes());
+            }
+        }
+    }
+    // surrogate pairs: ends of both ranges and a stride through them, both bracket forms
+    let his: Vec<u32> = (0xD800u32..=0xDBFF).filter(|h| *h <= 0xD802 || *h >= 0xDBFD || h % stride == 0).collect();
+    let los: Vec<u32> = (0xDC00u32..=0xDFFF).filter(|l| *l <= 0xDC02 || *l >= 0xDFFD || l % stride == 0).collect();
+    for h in &his {
+        for l in &los {
+            if !mine(&mut k) {
+                continue;
+            }
+            texts.push(format!("\"\\u{h:04X}\\u{l:04x}\"").into_bytes());
+            texts.push(format!("[\"\\u{{{h:04x}}}\\u{{{l:04X}}}z\"]").into_bytes());
+            texts.push(format!("\"\\u{h:04x}\\u{{{l:04x}}}\"").into_bytes());
+            // reversed (low then high): two lone halves
+            texts.push(format!("\"\\u{l:04x}\\u{h:04x}\"").into_bytes());
+        }
+    }
+    for t in texts {
+        if ctx.failure.is_some() {
+            break;
+        }
+        let case = Bytes(t);
+        let mut obs = Obs::default();
+        match crate::engine::guard(|| check_bytes(&case, &mut obs)) {
+            Ok(Ok(())) => {
+                obs.nontrivial = true;
+                ctx.record(|| crate::jser::Jser::to_j(&case), &obs)
+            }
+            Ok(Err(m)) => ctx.fail("codepoints", crate::jser::Jser::to_j(&case), m),
+            Err(p) => ctx.fail("codepoints", crate::jser::Jser::to_j(&case), format!("unexpected {}", p.describe())),
+        }
+    }
 }
